@@ -1,8 +1,8 @@
 (* Extract.v (group "start") — the start-up/shutdown model of C15 as an OCaml oracle. *)
-(* deps: StartModel.vo Bytes.vo *)
+(* deps: StartModel.vo StartPathModel.vo Bytes.vo *)
 Require Extraction.
 Require Import ExtrOcamlBasic.
-From MV Require Import Bytes StartModel.
+From MV Require Import Bytes StartModel StartPathModel.
 From MV.gen Require Import GenStart.
 Extraction Language OCaml.
 Extraction "model.ml"
@@ -10,4 +10,6 @@ Extraction "model.ml"
   prog startup shutdown serve_pc init run life overlap_sched
   obs_proc obs_names pid_content sock_listener lock_holder at_serve serving
   lock_open_creat lock_open_excl lock_open_trunc lock_create_mode
-  lock_cmd_nonblocking lock_type_exclusive lock_whole_file lock_busy_exits.
+  lock_cmd_nonblocking lock_type_exclusive lock_whole_file lock_busy_exits
+  cprog cinit crun cstep cobs_proc cnames is_sock name_listener name_lock_holder refuses bind_name lock_name_of
+  sun_path_cap sock_copy_size sock_len_bound lock_name_max.
